@@ -62,11 +62,15 @@ theorem needExpandBrace_false (t : Str) (h : ∀ c ∈ t, c ≠ '{') : needExpan
     simp [needExpandBrace, hc, ih (fun x hx => h x (by simp [hx]))]
 
 theorem findRange_none (t : Str) (h : ∀ c ∈ t, c ≠ '{') : findRange t = none := by
-  induction t with
-  | nil => rfl
-  | cons c cs ih =>
-    have hc := h c (by simp)
-    simp [findRange, hc, ih (fun x hx => h x (by simp [hx]))]
+  have key : ∀ (t acc : Str), (∀ c ∈ t, c ≠ '{') → findRangeGo acc t = none := by
+    intro t
+    induction t with
+    | nil => intro acc _; rfl
+    | cons c cs ih =>
+      intro acc h
+      have hc := h c (by simp)
+      simp [findRangeGo, hc, ih _ (fun x hx => h x (by simp [hx]))]
+  exact key t [] h
 
 /-! ### facts about a plain program word -/
 
